@@ -125,6 +125,57 @@ def candidates(ctx, g):
         ctx.ob("T3-candidate-flattens-cones", b.name, "push(table)", "ok" if ok else "violation",
                "the pushed table is dominated by flattens_all(table, all cones)" if ok else
                "a candidate table is recorded without flattens_all on that table and the full cone list: the cover may keep branching", b.span_of(bi))
+    # operand slots of the Z6 / D6 intersections: tx = intersection_table(ta, tb), ta from the tables that flatten the order-3 cones,
+    # tb from the index-2 tables; the order-2 cones are tested on tb (flattened for Z6 = Z3 x Z2, not flattened for D6), tx pairs (3,6)/(6,12)
+    def filter_closure(x):
+        t0 = norm(x, g)
+        c = t0[1][1] if t0[0] == "field" and t0[1][0] == "variant" else None
+        if not (c and c[0] == "call" and c[2]):
+            return None
+        d = norm(b.def_origin(c[2][0]), g)
+        fl = [s for s in subterms(d) if isinstance(s, tuple) and s and s[0] == "call" and s[1].endswith("Iterator::filter")]
+        return fl[0][2][1] if fl else None
+    def cone_order_of(lst):
+        d = norm(b.def_origin(lst), g)
+        fl = [s for s in subterms(d) if isinstance(s, tuple) and s and s[0] == "call" and s[1].endswith("Iterator::filter")]
+        if not fl:
+            return "all"
+        res = closure_result(ctx.facts, fl[0][2][1], g)
+        if res is not None and res[0] == "binop" and res[1] == "Eq" and res[3][0] == "int":
+            return res[3][1]
+        return None
+    for bi, t in pushes:
+        tab = norm(b.origin(t["args"][1]), g)
+        if not (tab[0] == "call" and tab[1].endswith("intersection_table")):
+            continue
+        ta, tb = tab[2]
+        # filters of the two loops
+        fa_c = filter_closure(ta)
+        fb_c = filter_closure(tb)
+        ra = closure_calls(ctx.facts, fa_c, g) if fa_c is not None else []
+        oka = any(c[0] == "delaney3d::flattens_all" for c in ra) and any(cone_order_of(c[2][1]) == 3 for c in ra if c[0] == "delaney3d::flattens_all") if fa_c is not None else False
+        rb = closure_result(ctx.facts, fb_c, g) if fb_c is not None else None
+        okb = rb is not None and rb[0] == "binop" and rb[1] == "Eq" and rb[3] == ("int", 2) and contains(rb[2], lambda s: isinstance(s, tuple) and s and s[0] == "call" and s[1].endswith("CosetTable::len"))
+        c2 = []
+        for a in b.facts_at(bi, deep=True):
+            if a[0] == "bool" and is_call(a[1], "delaney3d::flattens_all") and cone_order_of(strip(a[1])[2][1]) == 2:
+                c2.append((norm(strip(a[1])[2][0], g), a[2]))
+        lens = {}
+        for a in b.facts_at(bi):
+            a = atom_norm(a, g)
+            if a[0] == "rel" and a[1] == "Eq" and a[3][0] == "int" and a[2][0] == "call" and a[2][1].endswith("CosetTable::len"):
+                lens[a[2][2][0]] = a[3][1]
+        okslot = len(c2) == 1 and c2[0][0] == tb
+        kind = None
+        if okslot:
+            kind = "z6" if c2[0][1] is True else "d6"
+        oklens = (kind == "z6" and lens.get(ta) == 3 and lens.get(tab) == 6) or (kind == "d6" and lens.get(ta) == 6 and lens.get(tab) == 12)
+        ok = oka and okb and okslot and oklens
+        ctx.ob("T4-intersection-operand-slots", b.name, "push(intersection):%s" % (kind or "?"), "ok" if ok else "violation",
+               "tx = intersection_table(ta, tb): ta flattens the order-3 cones, tb has index 2, the order-2 cones are tested on tb (%s), sizes (%s, %s)" % (
+                   "flattened" if kind == "z6" else "not flattened", lens.get(ta), lens.get(tab)) if ok else
+               "the Z6/D6 candidate is not built from the right operands (ta filtered by order-3 cones: %s; tb filtered by len() == 2: %s; order-2 cones tested on tb: %s; size pair ok: %s): "
+               "hexagonal groups with 2-fold axes / 6_3-type screw axes lose their candidate" % (oka, okb, okslot, oklens), b.span_of(bi))
     # every listed point group gets an entry (so candidates[&tp] cannot panic)
     okins = False
     for bi, t in b.calls("BTreeMap::<K, V, A>::insert"):
